@@ -67,6 +67,9 @@ typedef struct {
   // For #line directive
   char *display_name;
   int line_delta;
+
+  // #include nesting depth of this file (0 for the main file)
+  int incl_depth;
 } File;
 
 // Token type
